@@ -426,6 +426,31 @@ func (w *speller) chain(n *N) {
 			w.number(n)
 		}
 	default:
+		// redundant parentheses around a prefix of the chain: ($.a.b).c is
+		// the chain $.a.b.c
+		if n.Next != nil && n.Next.Next != nil && w.st.lex() && w.st.coin(12) {
+			steps := 0
+			for s := n.Next; s != nil; s = s.Next {
+				steps++
+			}
+			k := 1 + w.st.R.IntN(steps-1)
+			w.tok("(")
+			w.sep0()
+			w.primary(n)
+			s := n.Next
+			for i := 0; i < k; i++ {
+				w.sep0()
+				w.step(s)
+				s = s.Next
+			}
+			w.sep0()
+			w.tok(")")
+			for ; s != nil; s = s.Next {
+				w.sep0()
+				w.step(s)
+			}
+			return
+		}
 		w.primary(n)
 	}
 	for s := n.Next; s != nil; s = s.Next {
@@ -676,6 +701,10 @@ func FloatSpelling(f float64, st *Style) string {
 		return s
 	}
 	r := st.R
+	if f == 0 && r.IntN(3) == 0 {
+		// a bare zero mantissa with an exponent is a zero like any other
+		return []string{"0e0", "0E5", "0e-3", "0e+1_0", "0.e1", "0.0e0", ".0e1", "0E+0", "0.00"}[r.IntN(9)]
+	}
 	switch r.IntN(6) {
 	case 0:
 		e := strconv.FormatFloat(f, 'e', -1, 64) // d.ddde±xx
